@@ -330,3 +330,61 @@ func LinearString(m map[string]int) string {
 	}
 	return strings.Join(parts, " ")
 }
+
+// RetSourceGuarded: every non-nil/non-zero value that can flow (through phis) into result #idx of fn
+// enters through a CFG edge that is guarded by gate g. Used for "a candidate is only produced when …" rows
+// where the result is accumulated in a loop variable.
+func RetSourceGuarded(w *World, id, kind, fnName string, idx int, g Gate, what string) []Result {
+	fn := w.Fn(fnName)
+	if fn == nil {
+		return anchorMissing(id, kind, fnName)
+	}
+	construct := kind + ":" + fnName + fmt.Sprintf("#ret%d⇐", idx) + g.Text
+	cut := w.GateCut(fn, g)
+	var out []Result
+	n := 0
+	seen := map[ssa.Value]bool{}
+	var visit func(v ssa.Value)
+	visit = func(v ssa.Value) {
+		if seen[v] {
+			return
+		}
+		seen[v] = true
+		phi, ok := v.(*ssa.Phi)
+		if !ok {
+			return
+		}
+		for i, e := range phi.Edges {
+			if _, isPhi := e.(*ssa.Phi); isPhi {
+				visit(e)
+				continue
+			}
+			if c, ok := e.(*ssa.Const); ok && (c.Value == nil || c.IsNil()) {
+				continue
+			}
+			n++
+			pred := phi.Block().Preds[i]
+			if EdgeReachable(pred, phi.Block(), cut) {
+				out = append(out, one(id, kind, construct, Violated, n, w.InstrPos(phi),
+					fmt.Sprintf("%s: value `%s` can become result #%d of %s without passing {%s}", what, clip(w.RenderD(e, 4), 100), idx, fnName, g.Text)))
+			}
+		}
+	}
+	for _, b := range fn.Blocks {
+		if len(b.Instrs) == 0 {
+			continue
+		}
+		ret, ok := b.Instrs[len(b.Instrs)-1].(*ssa.Return)
+		if !ok || idx >= len(ret.Results) {
+			continue
+		}
+		visit(resolveSpilled(ret, ret.Results[idx]))
+	}
+	if n == 0 {
+		return []Result{one(id, kind, construct, Violated, 0, w.Pos(fn.Pos()), "vacuous: no loop-carried result source found (idiom not recognised)")}
+	}
+	if len(out) == 0 {
+		out = append(out, one(id, kind, construct, Discharged, n, w.Pos(fn.Pos()), what))
+	}
+	return out
+}
